@@ -205,6 +205,44 @@ EXTRA = {
 for _p, _t in EXTRA.items():
     CLAIMS[_p]["text"] += _t
 
+
+FLOW_TEXT = (" The closed loop (spec/Flow.tla, FlowDesign, FlowMBT, FlowTrace; harness/flowdrv): the library's own relying parties (rp.NewRelyingPartyOIDC with the "
+             "login handlers, rp.Userinfo, rp.RefreshTokens, rp.RevokeToken, rp.EndSession, rp.DeviceAuthorization / rp.DeviceAccessToken, rs.Introspect) for a "
+             "basic, a post, a private_key_jwt and a public PKCE client talk in-process to the real provider on either router; TLC explores the interleavings of "
+             "two browsers, login attempts, session operations and device flows, the behaviours are replayed and the recorded events judged on the rules ")
+EXTRA2 = {
+    "C01": " Claim dimension cidclaim (the non-OIDC claim client_id decides nothing) and configuration dimension prior (the same ID token was verified by the "
+           "same verifier / relying party immediately before, next to the access token its at_hash names: verification is stateless).",
+    "C04": " Composed with spec/RequestObject.tla (rule C04.reqobj.pkce): the PKCE challenge AND transformation stored for a request are the signed request "
+           "object's when it counts and carries them, else the query's.",
+    "C05": " Composed with spec/Assertion.tla (rule C05.assertion.client): a code / token of the probe client is served on a private_key_jwt assertion only when "
+           "it is signed with a key held for that client and names it as issuer, also under verifiers that tolerate delegation (iss != sub). World clients cd / cs "
+           "register no auth method at all (empty string = client_secret_basic by default).",
+    "C06": " Environment event rotateMid: the operator's key rotation to an algorithm of another hash family lands between two storage reads of one request; "
+           "one user's subject needs escaping (u2@idp.example).",
+    "C07": FLOW_TEXT + "C07.flow.*. Scope lists may repeat a value (granted is the set of values); scripted matrix granted list x requested list.",
+    "C08": FLOW_TEXT + "C08.flow.* (userinfo / introspection through the client helpers are served exactly for live tokens; revocation, logout and expiry take effect). "
+           "Token forms include forged JWTs under an unknown key id and without key id.",
+    "C09": " Bodies validPlus*: the expected document with ONE optional member of another JSON type (id_token as number / object / array / boolean ...).",
+    "C10": " Fault kind canceled: the storage's error wraps context.Canceled while the request itself is alive.",
+    "C11": " The receiving end: callbacks delivered to rp.CodeExchangeHandler by GET and by POST (form_post) are exchanged and hand the application its state "
+           "(rules C11.rp.* of spec/RP.tla, run here as well).",
+    "C12": " RFC 3339 times with numeric offset and / or fraction; seal cases with an earlier opening of the same string under the right or a third key.",
+    "C14": " Request objects carry PKCE parameters (rule C14.reqobj.pkce); dimension prior: the same verifier / provider accepted the OTHER client's assertion immediately before.",
+    "C15": " Rule C15.client.auth with a scripted matrix: after a success of the client, every other credential presentation.",
+    "C16": FLOW_TEXT + "C16.flow.* (rp.DeviceAuthorization / rp.DeviceAccessToken: tokens only for the approved flow, approving user's subject, requested scopes, ID token). "
+           "The storage may report a user-code collision once (op.ErrDuplicateUserCode): the user code of the response is the one bound to the device code (C16.device.usercode).",
+    "C17": FLOW_TEXT + "C17.flow.* (authorization URL accepted by the provider, callback bound to the browser's cookie, login CSRF refused without a token request, "
+           "tokens of the attempt's user and client, every issued token passes the relying party's verification). RP.tla: relying party built by discovery (ID token "
+           "verified; code_challenge_methods_supported advertised, absent or plain only), callbacks by GET and POST.",
+    "C18": " URI plcxNear: differs from a registered post-logout URI with a query component in the '?' only.",
+    "C19": " Discover cases: custom discovery URL on the same / another host, document stating the URL's own issuer, via client.Discover and rp.NewRelyingPartyOIDC.",
+    "C20": " Further cells: a shared remote key set whose JWKS lists a key with and a key without key id (keeps serving from its cache), the exported package-level "
+           "error values of pkg/op and pkg/oidc; operations keySet.verify(good | unknownKid | noKid), brokenSignerProvider.implicitCallback.",
+}
+for _p, _t in EXTRA2.items():
+    CLAIMS[_p]["text"] += _t
+
 NOT_APPLICABLE = {}
 
 
